@@ -24,6 +24,7 @@ Monitors
   matrix-product (P, cross monitor of C04, not deciding here).
 """
 import copy
+import os
 import weakref
 import numpy as np
 
@@ -277,6 +278,12 @@ def obj_moved(v, pd0, ad0):
                 out = max(out, rp.max_mat_dev(pd1, pd0))
             elif isinstance(v, H.TangentVector):
                 out = max(out, rp.tangent_dev(pd1, pd0))
+                # and row by row as stored projective points (a query has no
+                # business rewriting the stored vector row either: seeded C11-2)
+                fin = np.all(np.isfinite(pd0.astype(complex)), axis=-1) & \
+                    (np.sum(np.abs(pd0) ** 2, axis=-1) > 1e-200)
+                if np.any(fin):
+                    out = max(out, float(np.max(rp.row_dev(np.asarray(pd1)[fin], pd0[fin]))))
             else:
                 fin = np.all(np.isfinite(pd0.astype(complex)), axis=-1) & \
                     (np.sum(np.abs(pd0) ** 2, axis=-1) > 0)
@@ -539,7 +546,74 @@ def explicit_check(run, obj, model, step, opname):
             return False
     else:
         ref.skip("aux not comparable")
+    return accessor_check(run, obj, model, opname, case)
+
+
+def accessor_check(run, obj, model, opname, case):
+    """the derived data as *read through the public accessors* (the property's
+    observation points Polygon.get_edges(), Segment.ideal_endpoint_coords()) is
+    what a freshly built object gives for the same primary data -- a cache
+    inside an accessor can go stale while aux_data itself stays right (seeded
+    change C11-3).  Called after every step, so an accessor has always been
+    read before the next mutation."""
+    acc = run.monitor("accessors", min_events=50)
+    if obj in _reported or (not model.comparable) or obj in _not_comparable:
+        return True
+    tol = 1e-3 if model.lowprec else 1e-6
+    try:
+        if hasattr(obj, "get_edges") and model.kind.endswith("Polygon"):
+            got = obj.get_edges()
+            fresh = type(obj)(np.array(obj.proj_data, copy=True)).get_edges()
+            dev = rp.max_row_dev(np.asarray(got.proj_data), np.asarray(fresh.proj_data))
+            if getattr(got, "aux_data", None) is not None and getattr(fresh, "aux_data", None) is not None:
+                ga, fa = np.asarray(got.aux_data, dtype=float), np.asarray(fresh.aux_data, dtype=float)
+                # ideal endpoints of an edge are conditioned like 1/separation
+                sep = float(np.min(rp.klein_sep(model.prim, np.roll(model.prim, -1, axis=-2))))
+                if ga.shape == fa.shape and np.all(np.isfinite(fa)) and sep >= 1e-3:
+                    dev = max(dev, float(np.max(rp.unordered_pair_dev(ga, fa))) * sep)
+            return acc.judge(dev, tol, "accessors/get_edges-stale/%s/after:%s" % (model.kind, opname),
+                             "after %s, %s.get_edges() is not what a fresh object built from the "
+                             "same proj_data returns" % (opname, model.kind), case)
+        if model.kind == "H.Segment":
+            sep = float(np.min(rp.klein_sep(model.prim[..., 0, :], model.prim[..., 1, :])))
+            if sep < 1e-3:
+                acc.skip("nearly coincident endpoints")
+                return True
+            got = np.asarray(obj.ideal_endpoint_coords("klein"), dtype=float)
+            fresh = np.asarray(type(obj)(np.array(obj.proj_data, copy=True)).ideal_endpoint_coords("klein"),
+                               dtype=float)
+            if got.shape != fresh.shape:
+                return acc.fail("accessors/ideal_endpoint_coords-shape/after:%s" % opname,
+                                "shape %r vs %r" % (got.shape, fresh.shape), case)
+            if not np.all(np.isfinite(fresh)):
+                acc.skip("non-finite ideal endpoints of the fresh object")
+                return True
+            dev = float(np.max(rp.unordered_pair_dev(got, fresh)))
+            return acc.judge(dev, tol / sep, "accessors/ideal_endpoint_coords-stale/after:%s" % opname,
+                             "after %s, Segment.ideal_endpoint_coords() is not what a fresh object "
+                             "built from the same proj_data returns" % opname, case)
+    except Exception as e:
+        import traceback
+        from .. import core
+        if core.raised_in_harness(e.__traceback__):
+            raise
+        return acc.fail("accessors/exception:%s/%s/after:%s" % (type(e).__name__, model.kind, opname),
+                        "reading the derived data through its accessor raised %s: %s"
+                        % (type(e).__name__, str(e)[:120]), case, tb=traceback.format_exc())
     return True
+
+
+def relatives_check(run, relatives, step, opname):
+    """objects the current one was derived from (by class-copy, reshape,
+    flatten, index, astype, deepcopy, apply, stack, combine -- not by the shallow
+    copy.copy, which shares arrays by definition) must stay coherent while
+    their descendant is edited: buffers shared between relatives (seeded change
+    C11-1: item assignment writing the recomputed aux data into the old buffer)
+    show up as a relative whose aux_data no longer follows its own proj_data."""
+    for r in relatives:
+        if r in _reported or r in _not_comparable:
+            continue
+        _state["check"](r, "relative-after:" + opname)
 
 
 def do_queries(rng, obj, kind):
@@ -775,7 +849,9 @@ def wl_history(run, rng, idx):
         _state["history"] = None
         return
     done = []
+    relatives = []
     for step, op in enumerate(ops):
+        prev = obj
         obj, model, status = apply_step(run, rng, op, obj, model, step)
         if status.startswith("skip"):
             run.monitor("history").skip(status[5:])
@@ -783,8 +859,14 @@ def wl_history(run, rng, idx):
         if status == "violation":
             break
         done.append(op)
+        if obj is not prev:
+            if op == "copy":
+                relatives = []          # shallow copies share arrays by definition
+            else:
+                relatives.append(prev)
         if not explicit_check(run, obj, model, step, op):
             break
+        relatives_check(run, relatives[-4:], step, op)
         if rng.random() < 0.35:
             do_queries(rng, obj, kind)
             if not explicit_check(run, obj, model, step, op + "+queries"):
